@@ -2320,6 +2320,10 @@ func (m *SnapManager) doLinkSnap(t *state.Task, _ *tomb.Tomb) (err error) {
 			delete(snapst.RevertStatus, oldCurrent.N)
 		}
 	} else {
+		if status, ok := snapst.RevertStatus[cand.Snap.Revision.N]; ok {
+			// remember it so that undo can put it back
+			t.Set("old-candidate-revert-status", status)
+		}
 		delete(snapst.RevertStatus, cand.Snap.Revision.N)
 	}
 
@@ -2802,6 +2806,20 @@ func (m *SnapManager) undoLinkSnap(t *state.Task, _ *tomb.Tomb) error {
 		}
 		// may be nil if not set (e.g. created by old snapd)
 		snapst.RevertStatus = oldRevertStatus
+	} else {
+		// linking dropped the revert status of the candidate revision
+		// (and only that one), put it back
+		var oldCandStatus RevertStatus
+		err := t.Get("old-candidate-revert-status", &oldCandStatus)
+		if err != nil && !errors.Is(err, state.ErrNoState) {
+			return err
+		}
+		if err == nil {
+			if snapst.RevertStatus == nil {
+				snapst.RevertStatus = make(map[int]RevertStatus)
+			}
+			snapst.RevertStatus[snapsup.Revision().N] = oldCandStatus
+		}
 	}
 
 	newInfo, err := readInfo(snapsup.InstanceName(), snapsup.SideInfo, 0)
